@@ -37,7 +37,8 @@ type CmdDef struct {
 	Unknown      int      `json:"unknown_mode,omitempty"` // -1 = inherit (0 is a mode), stored +1
 	SelfName     string   `json:"self_name,omitempty"`    // Self(name, description) called on the command: its display name in help
 	ArgComp      []string `json:"arg_completions,omitempty"`
-	ArgCompFns   int      `json:"arg_completion_fns,omitempty"` // number of ArgCompletionsFns callbacks (overlapping results, calls are logged)
+	ArgCompPanic bool     `json:"arg_completion_fn_panics,omitempty"` // the last completion callback panics (a nil map write in the program's own code)
+	ArgCompFns   int      `json:"arg_completion_fns,omitempty"`       // number of ArgCompletionsFns callbacks (overlapping results, calls are logged)
 	Synopsis     []string `json:"synopsis_args,omitempty"`
 }
 
@@ -166,6 +167,9 @@ func genOpts(r *simrt.RNG, taken map[string]bool, n int, reqBias int) []OptDef {
 				if r.Intn(3) == 0 { // a repeated entry
 					o.Suggested = append(o.Suggested, o.Suggested[0])
 				}
+				if r.Intn(6) == 0 { // values a shell would have to quote
+					o.Suggested = append(o.Suggested, "alpha beta", "al$HOME", `al"q'`, "a&b;(c)|d")
+				}
 			}
 		}
 		if o.Kind >= 8 && o.Kind <= 13 {
@@ -223,6 +227,9 @@ func genCmd(r *simrt.RNG, name string, taken map[string]bool, depth int, reqBias
 		if r.Intn(4) == 0 {
 			c.ArgComp = append(c.ArgComp, "v2", "v10", "v1beta1")
 		}
+		if r.Intn(8) == 0 { // candidates a shell would have to quote
+			c.ArgComp = append(c.ArgComp, "apple pie", "a$x", `ap"o'`)
+		}
 		if r.Intn(2) == 0 { // completion candidates that also come from another source, and repeats
 			c.ArgComp = append(c.ArgComp, cmdWords[r.Intn(len(cmdWords))], "apple", cmdWords[r.Intn(len(cmdWords))])
 		}
@@ -232,6 +239,7 @@ func genCmd(r *simrt.RNG, name string, taken map[string]bool, depth int, reqBias
 	}
 	if r.Intn(6) == 0 {
 		c.ArgCompFns = 1 + r.Intn(2)
+		c.ArgCompPanic = r.Intn(8) == 0
 	}
 	if depth < 4 && r.Intn(1+2*depth) == 0 {
 		used := map[string]bool{}
